@@ -27,7 +27,7 @@ IRT = ("match", "unknown", "absent")
 SCD = ("match", "different", "absent", "nodata-then-different", "match-then-different",
        # a confirmation whose data names no request in front of / between others
        "no-irt-then-different", "no-irt-then-match-then-different", "different-then-no-irt")
-DEST = ("own", "foreign", "absent", "pattern-only", "own-plus-suffix", "own-prefix", "own-other-case", "own-with-query", "empty")
+DEST = ("own", "foreign", "absent", "pattern-only", "own-plus-suffix", "own-prefix", "own-other-case", "own-with-query", "empty", "own-percent-encoded")
 AUD = ("none", "one-naming", "one-foreign", "two-both-naming", "two-one-foreign", "two-foreign-first", "empty-restriction", "naming-among-several-audiences",
        # one restriction names the SP, another one lists no usable audience at all / a near miss of the entity identifier
        "two-naming+blank-audience", "two-blank-audience-first", "three-naming+whitespace-audience+naming", "two-naming+restriction-without-audience",
@@ -62,16 +62,25 @@ def gen_cases(tier, seed):
             cid = "arrive:%s-eps:%s-irt:%s-dest:%s-aud:%s-u%d-p%d" % (arrive, eps, irt, dest, aud, unsol, pat)
             cases.append({"id": cid, "sig": [arrive, eps, irt, dest, aud, unsol, pat], "irt": irt, "scd": "match", "dest": dest, "aud": aud, "rec": "own",
                           "unsol": unsol, "conv": 0, "pat": pat, "signed": 0, "arrive": arrive, "eps": eps})
+    # an SP with a clock allowance, confirmations whose window closed inside it
+    for irt, scd, unsol in itertools.product(("match", "unknown"), SCD, (0, 1)):
+        for lapsed in (60, 3):
+            cid = "lapsed%d-irt:%s-scd:%s-u%d" % (lapsed, irt, scd, unsol)
+            cases.append({"id": cid, "sig": ["lapsed-within-allowance", lapsed, irt, scd, unsol], "irt": irt, "scd": scd, "dest": "own", "aud": "one-naming", "rec": "own",
+                          "unsol": unsol, "conv": 0, "pat": 0, "signed": 0, "arrive": "post", "eps": "both", "skew": 180, "lapsed": lapsed})
     # an assertion carried as advice inside the (well addressed) main assertion: what it contributes to the identity is subject to its own
     # audience restrictions and bearer confirmations like that of any other assertion of the response
     # (enc 2: only the advice assertion is encrypted, Advice/EncryptedAssertion as in PEFIM)
-    for aud, scd, unsol, signed, enc in itertools.product(AUD, ("match", "different"), (0, 1), (0, 1), (0, 1, 2)):
+    for aud, scd, unsol, signed, enc, nst in itertools.product(AUD, ("match", "different"), (0, 1), (0, 1), (0, 1, 2), (1, 2)):
         if tier == "quick" and aud in AUD_EXTRA and (unsol or enc == 1):
             continue
-        cid = "advice-aud:%s-scd:%s-u%d-%s-%s" % (aud, scd, unsol, "s" if signed else "p", ("plain", "enc", "advice-enc")[enc])
+        if tier == "quick" and nst == 2 and (signed or aud in AUD_EXTRA[2:]):
+            continue
+        # (nst: the advice assertion says what it says in one AttributeStatement, or spread over two)
+        cid = "advice-aud:%s-scd:%s-u%d-%s-%s%s" % (aud, scd, unsol, "s" if signed else "p", ("plain", "enc", "advice-enc")[enc], "-two-statements" if nst == 2 else "")
         cases.append({"id": cid, "sig": ["advice", aud, scd, unsol, signed, enc], "irt": "match", "scd": "match", "dest": "own", "aud": "one-naming", "rec": "own",
                       "unsol": unsol, "conv": 0, "pat": 0, "signed": signed, "arrive": "post", "eps": "both", "enc": enc % 2,
-                      "advice": {"aud": aud, "scd": scd, "enc": enc == 2}})
+                      "advice": {"aud": aud, "scd": scd, "enc": enc == 2, "statements": nst}})
     return cases
 
 
@@ -79,10 +88,12 @@ def setup_worker(ctx):
     ctx.fedcache = fed.Cache()
 
 
-def _pair(ctx, unsol, pat, signed, eps="both"):
+def _pair(ctx, unsol, pat, signed, eps="both", skew=0):
     def build():
         from saml2_tophat import BINDING_HTTP_POST
         extra = {"allow_unsolicited": bool(unsol), "want_response_signed": bool(signed)}
+        if skew:
+            extra["top"] = {"accepted_time_diff": skew}
         if pat:
             extra["valid_destination_regex"] = PATTERN
         if eps == "post-only":
@@ -90,7 +101,7 @@ def _pair(ctx, unsol, pat, signed, eps="both"):
         spc = fed.sp_conf(**extra)
         idc = fed.idp_conf()
         return fed.make_sp(spc, [fed.metadata_of(idc)]), fed.make_idp(idc, [fed.metadata_of(fed.sp_conf(**dict(extra, endpoints=None)) if eps == "post-only" else spc)])
-    return ctx.fedcache.get("pair", [unsol, pat, signed, eps], build)
+    return ctx.fedcache.get("pair", [unsol, pat, signed, eps, skew], build)
 
 
 def _aud_xml(doc, layout):
@@ -125,11 +136,23 @@ def _add_advice(d, adv):
         txt = txt[txt.index("?>") + 2:]
     assert "Ann" in txt
     txt = txt.replace("Ann", "Mallory").replace("givenName", "sn").replace("2.5.4.42", "2.5.4.4")
+    if adv.get("statements", 1) == 2:
+        t2 = xk.Doc(txt)
+        ast = t2.find(xk.SAML, "AttributeStatement")[0]
+        second = t2.outer(ast).decode("utf-8").replace("Mallory", "Dr Mallory").replace('"sn"', '"title"').replace("2.5.4.4", "2.5.4.12")
+        txt = t2.insert_after(ast, second).text()
+        if txt.startswith("<?xml"):
+            txt = txt[txt.index("?>") + 2:]
     cond = d.find(xk.SAML, "Conditions")[0]
     if adv.get("enc"):
         ed = xk.encrypt_fragment(txt, fed.key(2)[1])
         txt = "<%s:EncryptedAssertion>%s</%s:EncryptedAssertion>" % (p, ed.decode("utf-8") if isinstance(ed, bytes) else ed, p)
     return d.insert_after(cond, "<%s:Advice>%s</%s:Advice>" % (p, txt, p))
+
+
+def time_util_instant(t):
+    import time as _time
+    return _time.strftime("%Y-%m-%dT%H:%M:%SZ", _time.gmtime(t))
 
 
 def _deliver(sp, xml, outstanding, binding, **kw):
@@ -147,7 +170,7 @@ def _deliver(sp, xml, outstanding, binding, **kw):
 def run_case(case, ctx):
     from saml2_tophat import BINDING_HTTP_POST, BINDING_HTTP_REDIRECT
     arrive, eps = case.get("arrive", "post"), case.get("eps", "both")
-    sp, idp = _pair(ctx, case["unsol"], case["pat"], case["signed"], eps)
+    sp, idp = _pair(ctx, case["unsol"], case["pat"], case["signed"], eps, case.get("skew", 0))
     binding = BINDING_HTTP_POST if arrive == "post" else BINDING_HTTP_REDIRECT
     own_for_binding = ([fed.ACS_POST] if arrive == "post" else ([fed.ACS_REDIRECT] if eps == "both" else []))
     own_acs = own_for_binding[0] if own_for_binding else fed.ACS_POST      # what an honest IdP would have addressed
@@ -156,7 +179,8 @@ def run_case(case, ctx):
     d = d.set_attr(d.root, "InResponseTo", {"match": "id-req-1", "unknown": "id-never-sent", "absent": None}[case["irt"]])
     d = d.set_attr(d.root, "Destination", {"own": own_acs, "foreign": FOREIGN, "absent": None, "pattern-only": PATTERN_ONLY,
                                            "own-plus-suffix": own_acs + "/x", "own-prefix": own_acs[:-5], "own-other-case": own_acs.replace("/acs/", "/ACS/"),
-                                           "own-with-query": own_acs + "?x=1", "empty": ""}[case["dest"]])
+                                           "own-with-query": own_acs + "?x=1", "empty": "",
+                                           "own-percent-encoded": own_acs[:own_acs.rfind("/")] + "%2F" + own_acs[own_acs.rfind("/") + 1:]}[case["dest"]])
     scd = d.find(xk.SAML, "SubjectConfirmationData")[0]
     d = d.set_attr(scd, "InResponseTo", {"match": "id-req-1", "different": "id-other-request", "absent": None,
                                          "nodata-then-different": "id-other-request", "match-then-different": "id-req-1",
@@ -185,8 +209,12 @@ def run_case(case, ctx):
     elif case["scd"] == "match-then-different":
         sc = d.find(xk.SAML, "SubjectConfirmation")[0]
         d = d.insert_after(sc, d.outer(sc).decode("utf-8").replace('InResponseTo="id-req-1"', 'InResponseTo="id-other-request"'))
-    for a in d.find(xk.SAML, "AudienceRestriction"):
-        pass
+    if case.get("lapsed"):
+        # the clock allowance at work: every bearer confirmation's window closed a minute ago, inside the SP's allowance - they are still
+        # usable, so what they say about the request still counts
+        import time as _time
+        for i in range(len(d.find(xk.SAML, "SubjectConfirmationData"))):
+            d = d.set_attr(d.find(xk.SAML, "SubjectConfirmationData")[i], "NotOnOrAfter", time_util_instant(_time.time() - case["lapsed"]))
     while d.find(xk.SAML, "AudienceRestriction"):
         d = d.remove(d.find(xk.SAML, "AudienceRestriction")[0])
     cond = d.find(xk.SAML, "Conditions")[0]
